@@ -3,6 +3,7 @@
 package harness
 
 import (
+	"fmt"
 	"sort"
 	"strings"
 	"sync"
@@ -43,6 +44,20 @@ func Tbl() *Tables {
 				f = append(f, append([]string(nil), grp...))
 			}
 			t.Ranges = append(t.Ranges, f)
+		}
+		// The returned values are the caller's to edit; a caller that does so must not change what the
+		// library sees (checked by FreshTablesDiffer in C11/C12, and implicitly by every other check).
+		scribble(spdxlicenses.GetLicenses())
+		scribble(spdxlicenses.GetDeprecated())
+		scribble(spdxlicenses.GetExceptions())
+		lr := spdxlicenses.LicenseRanges()
+		for _, fam := range lr {
+			for _, grp := range fam {
+				scribble(grp)
+			}
+			for i, j := 0, len(fam)-1; i < j; i, j = i+1, j-1 {
+				fam[i], fam[j] = fam[j], fam[i]
+			}
 		}
 		t.activeFold = foldMap(t.Active)
 		t.deprecatedFold = foldMap(t.Deprecated)
@@ -181,4 +196,50 @@ func (t *Tables) UnrelatedIDs() []string {
 		}
 	}
 	return out
+}
+
+func scribble(ss []string) {
+	for i := range ss {
+		ss[i] = "SCRIBBLED-BY-CALLER"
+	}
+}
+
+// FreshTablesDiffer re-reads the four tables and compares them with the snapshot taken before the
+// harness (acting as a caller) edited the values it had been handed. "" = identical.
+func (t *Tables) FreshTablesDiffer() string {
+	cmp := func(name string, got, want []string) string {
+		if len(got) != len(want) {
+			return fmt.Sprintf("%s now has %d entries, had %d", name, len(got), len(want))
+		}
+		for i := range got {
+			if got[i] != want[i] {
+				return fmt.Sprintf("%s[%d] is now %q, was %q", name, i, got[i], want[i])
+			}
+		}
+		return ""
+	}
+	if d := cmp("GetLicenses()", spdxlicenses.GetLicenses(), t.Active); d != "" {
+		return d
+	}
+	if d := cmp("GetDeprecated()", spdxlicenses.GetDeprecated(), t.Deprecated); d != "" {
+		return d
+	}
+	if d := cmp("GetExceptions()", spdxlicenses.GetExceptions(), t.Exceptions); d != "" {
+		return d
+	}
+	fresh := spdxlicenses.LicenseRanges()
+	if len(fresh) != len(t.Ranges) {
+		return fmt.Sprintf("LicenseRanges() now has %d families, had %d", len(fresh), len(t.Ranges))
+	}
+	for i := range fresh {
+		if len(fresh[i]) != len(t.Ranges[i]) {
+			return fmt.Sprintf("LicenseRanges()[%d] now has %d groups, had %d", i, len(fresh[i]), len(t.Ranges[i]))
+		}
+		for j := range fresh[i] {
+			if d := cmp(fmt.Sprintf("LicenseRanges()[%d][%d]", i, j), fresh[i][j], t.Ranges[i][j]); d != "" {
+				return d
+			}
+		}
+	}
+	return ""
 }
